@@ -130,6 +130,12 @@ let rec gx (x : sx) : g =
   | L [A "ExtWrap"; a] -> ExtWrap (gx a)
   | L [A "Skip"; n] -> Skip (natx n)
   | L [A "Padded"; ws; a] -> Padded (toks ws, gx a)
+  | L [A "Prog"; L ops; k] ->
+      Prog (List.map (function
+          | A "CNext" -> CNext | A "CNextRef" -> CNextRef | A "CPeek" -> CPeek | A "CSkip" -> CSkip | A "CSave" -> CSave
+          | A "CRewind" -> CRewind | A "CSpan" -> CSpan | A "CState" -> CState
+          | L [A "CExpect"; t] -> CExpect (n_of_int (num t))
+          | _ -> failwith "cop") ops, natx k)
   | L [A "Lazy"; a] -> ThenIgnore (gx a, RepUnit (IRep (Any, O, None)))      (* Syntax.Lazy: lazy() = then_ignore(any().repeated()) *)
   | L [A "WithState"; k; a] -> WithState (n_of_int (num k), gx a)
   | L [A "NestedDelims"; s; e; L others] ->
@@ -159,6 +165,7 @@ and itx (x : sx) : iT =
   | L [A "IMapWith"; f; i] -> IMapWith (mwx f, itx i)
   | L [A "IOrNot"; a] -> IOrNot (gx a)
   | L [A "IIntoIter"; a] -> IIntoIter (gx a)
+  | L [A "IThen"; i; j] -> IThen (itx i, itx j)
   | L [A "IRepCfg"; a; lo; hi] -> IRepCfg (gx a, natx lo, optnat hi, O)
   | L [A "IRepCfg"; a; lo; hi; ck] -> IRepCfg (gx a, natx lo, optnat hi, natx ck)
   | _ -> failwith "iter"
@@ -198,6 +205,41 @@ let perr (e : err) =
       if i > 0 then Buffer.add_char buf ',';
       Buffer.add_string buf (Printf.sprintf "%d@%d..%d" (int_of_nat l) (int_of_nat cs) (int_of_nat ce))) e.ectx;
   Buffer.add_char buf ']'
+
+(* ---------- the result as a Coq term (CHUM_WHICH=coq / coqsem): for the in-Coq cross-check of extraction ---------- *)
+let cn (k : nat) = string_of_int (int_of_nat k)
+let cN (k : n) = "(" ^ string_of_int (int_of_n k) ^ ")%N"
+let clist f l = "[" ^ String.concat "; " (List.map f l) ^ "]"
+let rec cval (v : val0) : string =
+  match v with
+  | VUnit -> "VUnit"
+  | VTok t -> "(VTok " ^ cN t ^ ")"
+  | VNat k -> "(VNat " ^ cn k ^ ")"
+  | VNum k -> "(VNum " ^ cN k ^ ")"
+  | VPair (a, b) -> "(VPair " ^ cval a ^ " " ^ cval b ^ ")"
+  | VList l -> "(VList " ^ clist cval l ^ ")"
+  | VOpt None -> "(VOpt None)"
+  | VOpt (Some x) -> "(VOpt (Some " ^ cval x ^ "))"
+  | VSpan (s, e) -> "(VSpan " ^ cn s ^ " " ^ cn e ^ ")"
+  | VSlice (s, e) -> "(VSlice " ^ cn s ^ " " ^ cn e ^ ")"
+  | VTag (k, x) -> "(VTag " ^ cn k ^ " " ^ cval x ^ ")"
+  | VNew -> "VNew"
+let cerr (e : err) : string =
+  let (s, en) = e.espan in
+  let r = match e.ereason with
+    | RCustom k -> "(RCustom " ^ cn k ^ ")"
+    | REF (exp, found) -> "(REF " ^ clist cN exp ^ " " ^ (match found with None -> "None" | Some t -> "(Some " ^ cN t ^ ")") ^ ")" in
+  "(mkErr (" ^ cn s ^ ", " ^ cn en ^ ") " ^ r ^ " " ^ clist (fun (l, (cs, ce)) -> "(" ^ cn l ^ ", (" ^ cn cs ^ ", " ^ cn ce ^ "))") e.ectx ^ ")"
+let ctop (r : top_result) : string =
+  match r with
+  | TRes (o, errs) ->
+    "(TRes " ^ (match o with None -> "None" | Some None -> "(Some None)" | Some (Some v) -> "(Some (Some " ^ cval v ^ "))") ^ " " ^ clist cerr errs ^ ")"
+  | TPanic s -> "(TPanic " ^ cn s ^ ")"
+  | TOOF -> "TOOF"
+let csem (r : (val0 option * err list) option) : string =
+  match r with
+  | None -> "None"
+  | Some (o, errs) -> "(Some (" ^ (match o with None -> "None" | Some v -> "(Some " ^ cval v ^ ")") ^ ", " ^ clist cerr errs ^ "))"
 
 let perrs (l : err list) =
   Buffer.add_string buf "E[";
@@ -268,6 +310,11 @@ let run_line (line : string) =
              | _ -> failwith "tree input")
           | _ -> failwith "ikind") in
        let fuel = nat_of_int (3 * (sx_size gr + List.length tk) + 40) in
+       if which = "coqsem" then
+         Buffer.add_string buf (string_of_int (int_of_nat fuel) ^ " " ^ csem (sem_top k tk spn fuel g))
+       else if which = "coq" then
+         Buffer.add_string buf (string_of_int (int_of_nat fuel) ^ " " ^ ctop (run_top (set_nested quirks (Some (fun _ -> None))) k tk spn fuel m g))
+       else
        if which = "sem" then
          (match sem_top k tk spn fuel g with
           | Some (Some v, errs) ->
